@@ -226,6 +226,11 @@ Proof.
   intros s H x Hx w Hw. unfold prune in *. cbn in *. apply filter_In in Hx. destruct Hx as [Hx _]. eapply H; eassumption.
 Qed.
 
+Lemma tm_inv_rc_prune : forall s, tm_inv s -> tm_inv (rc_prune s).
+Proof.
+  intros s H x Hx w Hw. unfold rc_prune in *. cbn in *. apply filter_In in Hx. destruct Hx as [Hx _]. eapply H; eassumption.
+Qed.
+
 (* tm_inv only looks at keys and indexed *)
 Lemma tm_inv_ext : forall s s', keys s' = keys s -> indexed s' = indexed s -> tm_inv s -> tm_inv s'.
 Proof. intros s s' Hk Hi H x Hx w Hw. rewrite Hk. rewrite Hi in Hx. eapply H; eassumption. Qed.
@@ -252,7 +257,7 @@ Qed.
 Lemma tm_inv_scan : forall s p disk, tm_inv s -> tm_inv (scan_raw s p disk).
 Proof.
   intros s p disk H. unfold scan_raw. destruct (find_listed p (listed s)); [|assumption].
-  apply tm_inv_cleanup. apply tm_inv_build. apply tm_inv_prune. eapply tm_inv_ext; [| |exact H]; reflexivity.
+  apply tm_inv_cleanup. apply tm_inv_build. apply tm_inv_rc_prune. eapply tm_inv_ext; [| |exact H]; reflexivity.
 Qed.
 
 Lemma tm_inv_load_entry : forall s e, tm_inv s -> tm_inv (load_entry s e).
@@ -578,7 +583,7 @@ Proof.
   intros s p disk d H. exists (set_items d (scanned_items s d disk)).
   destruct (find_listed_path _ _ _ H) as [Hp _].
   split; [|cbn; tauto].
-  unfold step. cbn [step_raw]. unfold scan_raw. rewrite H. cbn [listed prune cleanup]. rewrite build_listed. cbn [listed prune].
+  unfold step. cbn [step_raw]. unfold scan_raw. rewrite H. cbn [listed prune cleanup]. rewrite build_listed. cbn [listed rc_prune].
   eapply find_replace; [eassumption|]. cbn. assumption.
 Qed.
 
